@@ -10,10 +10,16 @@
     SV n ngates (name a b k)*     -> state vector of the simulator model from |0…0> (re im …) |
                                      per stabiliser row: does `pauliOp n row` fix it? | tableau
     PO n row (re im)*2^n          -> `pauliOp n row` applied to the given state vector
+    AG n <rows>                   -> gate list of the model of `to_circuit("AG04")` (name q.., comma separated) |
+                                     working tableau after both loops | tableau of the returned circuit from the zero state
+    EX n hasinit [<rows>] nitems item* ncoins coin*   -> REFUSED | ENGINE | DONE <tableau> | outcomes
+         item = G flag hasop name a b k | M collapse m q_1..q_m | N hasop name a b k
 -/
 import QV.Model.CliffordMat
 import QV.Model.CliffordSV
 import QV.Model.Table
+import QV.Model.CliffordSynth
+import QV.Model.CliffordAccept
 open QV QV.Cliff
 
 structure Rd where
@@ -73,6 +79,17 @@ def nextGate : P (Option Gate) := do
     | "RX" => some (.RX a k) | "RY" => some (.RY a k) | "RZ" => some (.RZ a k)
     | "CRX" => some (.CRX a b k) | "CRY" => some (.CRY a b k) | "CRZ" => some (.CRZ a b k)
     | _ => none
+
+def gateTok : Gate → String
+  | .I q => s!"I {q}" | .H q => s!"H {q}" | .X q => s!"X {q}" | .Y q => s!"Y {q}" | .Z q => s!"Z {q}"
+  | .S q => s!"S {q}" | .SDG q => s!"SDG {q}" | .SX q => s!"SX {q}" | .SXDG q => s!"SXDG {q}"
+  | .CNOT c t => s!"CNOT {c} {t}" | .CZ c t => s!"CZ {c} {t}" | .CY c t => s!"CY {c} {t}"
+  | .SWAP c t => s!"SWAP {c} {t}" | .iSWAP c t => s!"iSWAP {c} {t}" | .FSWAP c t => s!"FSWAP {c} {t}"
+  | .ECR c t => s!"ECR {c} {t}"
+  | .RX q k => s!"RX {q} {k}" | .RY q k => s!"RY {q} {k}" | .RZ q k => s!"RZ {q} {k}"
+  | .CRX c t k => s!"CRX {c} {t} {k}" | .CRY c t k => s!"CRY {c} {t} {k}" | .CRZ c t k => s!"CRZ {c} {t} {k}"
+
+def showGates (gs : List Gate) : String := ",".intercalate (gs.map gateTok)
 
 def showGIs (a : Array GI) : String := " ".intercalate (a.toList.map GI.toStr)
 
@@ -142,6 +159,54 @@ def handle : P String := do
   | "Z" =>
     let n ← nextNat
     pure (showT n (zeroState n))
+  | "EX" =>
+    let n ← nextNat
+    let hasInit ← nextNat
+    let mut init : Option Tableau := none
+    if hasInit == 1 then
+      init := some (← nextTableau n)
+    let ni ← nextNat
+    let mut items : List QItem := []
+    let mut ok := true
+    for _ in [0:ni] do
+      let kind ← nextTok
+      match kind with
+      | "G" =>
+        let flag ← nextNat
+        let hasop ← nextNat
+        let g ← nextGate
+        if hasop == 1 && g.isNone then ok := false
+        items := QItem.gate (flag == 1) (if hasop == 1 then g else none) :: items
+      | "M" =>
+        let cl ← nextNat
+        let m ← nextNat
+        let mut qs := []
+        for _ in [0:m] do
+          qs := (← nextNat) :: qs
+        items := QItem.meas qs.reverse (cl == 1) :: items
+      | "N" =>
+        let hasop ← nextNat
+        let g ← nextGate
+        if hasop == 1 && g.isNone then ok := false
+        items := QItem.noise (if hasop == 1 then g else none) :: items
+      | _ => ok := false
+    let nc ← nextNat
+    let mut coins := []
+    for _ in [0:nc] do
+      coins := ((← nextNat) == 1) :: coins
+    if !ok then pure "bad-item" else
+    match execute n init items.reverse coins.reverse with
+    | .refused => pure "REFUSED"
+    | .engineError => pure "ENGINE"
+    | .done T outs =>
+      let os := ",".intercalate (outs.map fun o => String.ofList (o.map bit))
+      pure s!"DONE {showT n (T.map (norm n))} | {os}"
+  | "AG" =>
+    let n ← nextNat
+    let T ← nextTableau n
+    let gs := toCircuitAG04 n T
+    let fwd := ag04Forward n T
+    pure s!"{showGates gs} | {showT n (fwd.1.map (norm n))} | {showT n ((runGates gs (zeroState n)).map (norm n))}"
   | "MAT1" =>
     let name ← nextTok
     let k ← nextInt
